@@ -12,7 +12,7 @@ from .machine import (Machine, Domain, Encoder, AV, A_bool, A_int, A_const, NONE
                       TranslationError, Frame, dotted)
 
 
-def build(MIN, SIZE, J, with_close):
+def build(MIN, SIZE, J, with_close, race=False):
     W = MIN + J            # every process() call creates at most one worker
     dom = Domain()
     dom.classes = {
@@ -31,6 +31,8 @@ def build(MIN, SIZE, J, with_close):
     for cls, name in (("Pool", "process"), ("Pool", "notify_done"), ("Pool", "close"), ("Pool", "num_workers"),
                       ("Worker", "run"), ("Worker", "process")):
         dom.inline[(cls, name)] = load_method(getattr(svr_threads, cls), name)
+
+    dom.pyclasses = {"Pool": svr_threads.Pool, "Worker": svr_threads.Worker}
 
     def receiver_is(node, frame, cls):
         d = dotted(node)
@@ -183,7 +185,7 @@ def build(MIN, SIZE, J, with_close):
         ref.info = [("refused[%d]" % j, lambda ctx: z3.BoolVal(True))]
         ref.succ = nxt
         call = m.build_call(acc, "Pool", "process", pool_obj, [AV("ref", bv(j), "Job")], nxt, top,
-                            handlers=[({"NoFreeWorkersError"}, ref.idx)])
+                            handlers=[({"NoFreeWorkersError", "PoolError"} if race else {"NoFreeWorkersError"}, ref.idx)])
         sub = m.add_node(acc, "set", ast.Pass(), top, "harness.accept")
         sub.info = [("submitted[%d]" % j, lambda ctx: z3.BoolVal(True))]
         sub.succ = call
@@ -210,15 +212,16 @@ def store_back_factory(m):
     pass
 
 
-def check(MIN, SIZE, J, with_close, K, timeout_s=600, preempt=None, exclude=()):
+def check(MIN, SIZE, J, with_close, K, timeout_s=600, preempt=None, exclude=(), race=False):
     """returns dict(result='unsat'|'sat'|'unknown', model info..., stats)"""
     t0 = time.time()
-    m, dom, W = build(MIN, SIZE, J, with_close)
+    m, dom, W = build(MIN, SIZE, J, with_close, race)
     enc = Encoder(m, {"KeyError": 2, "PoolError": 3, "NoFreeWorkersError": 4, "TypeError": 5})
     for i in range(W):
         enc.extra_guards["worker%d" % i] = (lambda i: lambda st: st["Worker[%d].started" % i])(i)
-    if with_close:
-        # submissions are over before the pool is closed (close racing with process is outside the quantifier)
+    if with_close and not race:
+        # submissions are over before the pool is closed; with race=True close() may start at any moment, also while a
+        # connection is being submitted (a submission that finds the pool closed is turned away with PoolError)
         enc.extra_guards["closer"] = lambda st: st["accept.outcome"] != bv(0)
     s = z3.SolverFor("QF_BV")
     s.set("timeout", int(timeout_s * 1000))
@@ -296,13 +299,13 @@ def check(MIN, SIZE, J, with_close, K, timeout_s=600, preempt=None, exclude=()):
     return out, (m, enc, states, tids, nds)
 
 
-def reach_quiescence(MIN, SIZE, J, with_close, K):
+def reach_quiescence(MIN, SIZE, J, with_close, K, race=False):
     """vacuity guard: a quiescent state with every job served is reachable within K steps"""
-    m, dom, W = build(MIN, SIZE, J, with_close)
+    m, dom, W = build(MIN, SIZE, J, with_close, race)
     enc = Encoder(m, {"KeyError": 2, "PoolError": 3, "NoFreeWorkersError": 4, "TypeError": 5})
     for i in range(W):
         enc.extra_guards["worker%d" % i] = (lambda i: lambda st: st["Worker[%d].started" % i])(i)
-    if with_close:
+    if with_close and not race:
         enc.extra_guards["closer"] = lambda st: st["accept.outcome"] != bv(0)
     s = z3.SolverFor("QF_BV")
     s.set("timeout", 300000)
